@@ -76,6 +76,16 @@ def cases(ctx):
                 "twin_src": f"*={org:#08x}\n.db 7\nnop\nlda.w #0x1234\n.db 7\nnop\nlda.w #0x1234\n"})
     # failures
     for src in (f"*={org:#08x}\nnope(1)\n", f"*={org:#08x}\n.macro m(a, b) {{\n.db a\n}}\nm(1)\n",
-                f"*={org:#08x}\nm(1)\n.macro m(a) {{\n.db a\n}}\n", f"*={org:#08x}\n.macro m(a, b, c) {{\nnop\n}}\nm()\n"):
+                f"*={org:#08x}\nm(1)\n.macro m(a) {{\n.db a\n}}\n", f"*={org:#08x}\n.macro m(a, b, c) {{\nnop\n}}\nm()\n",
+                ):
         out.append({"kind": "must-fail", "rom": "low", "src": src, "spec": {"t": "reject"}})
+    # a macro defined by ANOTHER program assembled earlier in the same process is still undefined here (and a
+    # redefinition there does not reach a program that defines its own)
+    earlier = f"*={org:#08x}\n.macro r(n) {{\n.db n, n\n}}\n.macro m(a, b) {{\n.dw a, b\n}}\nr(1)\nm(2, 3)\n"
+    for src in (f"*={org:#08x}\nr(0)\n", f"*={org:#08x}\nm(1, 2)\n", f"*={org:#08x}\nnop\n{{\nr(5)\n}}\n"):
+        out.append({"kind": "must-fail:after-other-program", "rom": "low", "src": src, "earlier_src": earlier,
+                    "spec": {"t": "reject"}})
+    out.append({"kind": "own-definition:after-other-program", "rom": "low", "earlier_src": earlier,
+                "src": f"*={org:#08x}\n.macro r(n) {{\n.db n\n}}\nr(7)\n", "twin_src": f"*={org:#08x}\n.db 7\n",
+                "spec": {"t": "twin", "labels": False}})
     return out
